@@ -1100,6 +1100,8 @@ void rfbNewFramebuffer(rfbScreenInfoPtr screen, char *framebuffer,
   rfbClientPtr cl;
   int old_width = screen->width, old_height = screen->height;
   extern void rfbScalingSetup(rfbClientPtr cl, int width, int height);
+  extern rfbClientIteratorPtr
+    rfbGetClientIteratorWithClosed(rfbScreenInfoPtr rfbScreen);
 
   /* Lock out client reads. */
   iterator = rfbGetClientIterator(screen);
@@ -1152,7 +1154,9 @@ void rfbNewFramebuffer(rfbScreenInfoPtr screen, char *framebuffer,
   {
     rfbScreenInfoPtr stale = screen->scaledScreenNext, next;
     screen->scaledScreenNext = NULL;
-    iterator = rfbGetClientIterator(screen);
+    /* also the clients that are closed but not reaped yet: rfbClientConnectionGone() will still
+     * touch their scaledScreen, which must not be one of the copies freed below */
+    iterator = rfbGetClientIteratorWithClosed(screen);
     while ((cl = rfbClientIteratorNext(iterator)) != NULL) {
       if (cl->scaledScreen != screen) {
         int sw = cl->scaledScreen->width, sh = cl->scaledScreen->height;
@@ -1162,7 +1166,8 @@ void rfbNewFramebuffer(rfbScreenInfoPtr screen, char *framebuffer,
           if (old_width / f == sw && old_height / f == sh) { factor = f; break; }
         cl->scaledScreen = screen;
         screen->scaledScreenRefCount++;
-        if (factor > 1 && width / factor > 0 && height / factor > 0)
+        if (cl->sock != RFB_INVALID_SOCKET &&
+            factor > 1 && width / factor > 0 && height / factor > 0)
           rfbScalingSetup(cl, width / factor, height / factor);
       }
     }
